@@ -311,15 +311,19 @@ pub fn replicate_request(
                     reclaim_space,
                     db_names,
                 } => {
-                    let db_name = db_name
-                        .clone()
-                        .expect("db_name should be set for snapshot replication");
-                    log::debug!("Will replicate a snapshot to the database {}", db_name);
+                    // Databases named in the command do not need a selected database
                     let db_names = if db_names.is_empty() {
-                        vec![db_name.to_string()]
+                        match db_name.clone() {
+                            Some(db_name) => vec![db_name],
+                            None => return response,
+                        }
                     } else {
                         db_names
                     };
+                    log::debug!(
+                        "Will replicate a snapshot to the databases {}",
+                        db_names.join("|")
+                    );
                     replicate_web(
                         replication_sender,
                         format!(
